@@ -476,8 +476,18 @@ class cpr_drs {
 
             auto App = std::make_shared<build_matrix_p>();
             App->set_size(np, np, true);
-            App->set_nonzeros(K->nnz);
-            App->ptr[0] = 0;
+
+            // Only the couplings between active (pressure) blocks belong to
+            // the pressure matrix.
+#pragma omp parallel for
+            for (ptrdiff_t i = 0; i < static_cast<ptrdiff_t>(np); ++i) {
+                ptrdiff_t row_width = 0;
+                for(ptrdiff_t j = K->ptr[i], e = K->ptr[i + 1]; j < e; ++j)
+                    if (K->col[j] < N) ++row_width;
+                App->ptr[i + 1] = row_width;
+            }
+
+            App->set_nonzeros(App->scan_row_sizes());
 
 #pragma omp parallel for
             for (ptrdiff_t i = 0; i < static_cast<ptrdiff_t>(np); ++i) {
@@ -492,7 +502,7 @@ class cpr_drs {
 
                 ptrdiff_t row_beg = K->ptr[i];
                 ptrdiff_t row_end = K->ptr[i + 1];
-                App->ptr[i+1] = row_end;
+                ptrdiff_t app_head = App->ptr[i];
 
                 value_type_p *d = &fpp->val[i * B];
                 const double *w = prm.weights.empty() ? nullptr : &prm.weights[i * B];
@@ -528,13 +538,16 @@ class cpr_drs {
                 }
 
                 for(ptrdiff_t j = row_beg; j < row_end; ++j) {
-                    App->col[j] = K->col[j];
+                    if (K->col[j] >= N) continue;
+
+                    App->col[app_head] = K->col[j];
 
                     value_type_p app = 0;
                     for(int k = 0; k < B; ++k)
                         app += d[k] * K->val[j](k,0);
 
-                    App->val[j] = app;
+                    App->val[app_head] = app;
+                    ++app_head;
                 }
             }
 
